@@ -225,7 +225,15 @@ where
     type Stream = Self;
 
     fn into_parts(self) -> (Vector<VectorDiffContainerStreamElement<S>>, Self::Stream) {
-        (self.buffered_vector.clone(), self)
+        // The values the next observer starts from are the current view, not
+        // the buffered copy of the underlying vector. Without a count, the
+        // view is empty.
+        let values = match self.count {
+            Some(count) => self.buffered_vector.clone().skeep(count),
+            None => Vector::new(),
+        };
+
+        (values, self)
     }
 }
 
